@@ -23,7 +23,7 @@ def gen(rng, tier):
         for ckind in (0, 1, 2):
             csize = 4 if ckind == 2 else 2
             caddr = rng.choice([4, 4096, 2**32 - (csize + dsize) - 4])
-            for bs in ([-1, 2] if not big else [-1, 1, 2, dsize]):
+            for bs in ([-1, 2, 3] if not big else [-1, 1, 2, 3, dsize, dsize + 1]):   # incl. sizes that do not divide the regions
                 # (a) crash points of a full store and of a part store
                 off = rng.randrange(dsize); n = rng.randrange(1, dsize - off + 1)
                 for store_op, lens in (((0, 11, 0, 0), [dsize, csize]), ((1, 13, off, n), [n, csize])):
@@ -38,10 +38,10 @@ def gen(rng, tier):
                 base_ops = [(0, 5, 0, 0), (1, 13, off, n), (2, 0, 0, 0), (3, 0, 0, 0), (4, off, n, 0), (5, 0x55, 0, 0), (2, 0, 0, 0)]
                 nreads = 2 * (dsize + 3) + 8; nwrites = 2 * (dsize + csize) + 6
                 for pos in range(0, nreads):
-                    for m in (0, 1):
+                    for m in (0, 1, 2):
                         yield C10.case(rng, caddr, ckind, 0, dsize, bs, [-1] * pos + [m], [], base_ops)
                 for pos in range(0, nwrites):
-                    for m in (0, 1):
+                    for m in (0, 1, 2):
                         yield C10.case(rng, caddr, ckind, 0, dsize, bs, [], [-1] * pos + [m], base_ops)
 
 def nontrivial(c):
